@@ -5,7 +5,7 @@ From Coq Require Import List ZArith NArith Bool Lia Arith PeanoNat.
 From Coq Require Import ZifyN ZifyNat ZifyBool.
 Import ListNotations.
 Require Import V.base.Bytes V.gen.Hagrid V.model.Transcript V.proofs.Transcript_proofs.
-Require Import V.model.Sigma V.model.Compilers.
+Require Import V.gen.SigmaConsts V.model.Sigma V.model.Compilers.
 Local Open Scope N_scope.
 
 (* ---------- byte-string equality test ---------- *)
